@@ -32,7 +32,8 @@ RULE = (
     'prerequisite that exists before and after keeps its satisfaction; a '
     'prerequisite that is new is satisfied iff the run database (read '
     'independently before the reload) records that output of the upstream '
-    'task in an overlapping flow; a task whose definition was removed '
+    'task in an overlapping flow, or the pooled upstream task has completed '
+    'it; a task whose definition was removed '
     'stays in the pool if it had started (status other than waiting); '
     'nothing else joins or leaves the pool. One iteration later a '
     'task that was queued is queued again or has started; no task that had '
@@ -124,7 +125,8 @@ def make_variant(rng, prog):
         sub = rng.random()
         if sub < 0.5:
             x = rng.choice(sorted(new.tasks))
-            s.lines.append((('atom', Atom(x, 'succeeded', 'rel', -1)), [t]))
+            outs = ['succeeded', 'started', 'started'] + list(new.tasks[x].customs)
+            s.lines.append((('atom', Atom(x, rng.choice(outs), 'rel', -1)), [t]))
             return 'ext_prereq', new, new.render()
         nn = 'znew'
         new.tasks[nn] = Task(nn)
@@ -185,12 +187,19 @@ def gen_cmds(rng, prog, model):
         c.update({'iter': it, 'slot': rng.randint(0, 1)})
         cmds.append(c)
     it = base
+    paused = False
+    if rng.random() < 0.35:
+        cmds.append({'iter': max(1, base - rng.randint(1, 3)), 'slot': 0,
+                     'name': 'pause', 'kwargs': {}})
+        paused = True
     for k in range(rng.randint(1, 2)):
         cmds.append({'iter': it, 'slot': rng.randint(0, 1),
                      'name': 'reload_workflow', 'kwargs': {},
                      'variant': k})
         it += rng.randint(1, 10)
     cmds.sort(key=lambda c: (c['iter'], c['slot']))
+    if paused:
+        cmds.append({'at_time': 100.0, 'name': 'resume', 'kwargs': {}})
     cmds.append({'at_time': 120.0, 'name': 'release_hold_point', 'kwargs': {}})
     cmds.append({'at_time': 120.0, 'name': 'release', 'kwargs': {
         'tasks': ['*/*']}})
@@ -255,6 +264,7 @@ class ReloadWatch(Monitor):
                 'queued': bool(i.state.is_queued),
                 'runahead': bool(i.state.is_runahead),
                 'outputs': set(i.state.outputs.get_completed_outputs()),
+                'out_msgs': {msg for _l, msg, done in i.state.outputs if done},
                 'prereqs': pr,
                 'xtriggers': dict(i.state.xtriggers),
                 'manual': bool(i.is_manual_submit),
@@ -353,6 +363,21 @@ class ReloadWatch(Monitor):
                 res.sim.probe('new_prereq_on_pooled_task')
                 rec = any(fs & b['flows'] and key[2] in msgs
                           for fs, msgs in dbo.get((key[0], key[1]), []))
+                if any(k[0] == key[0] and k[1] == key[1] and m == key[2]
+                       for _t, k, m in self.h.world.msg_log):
+                    # the scheduler has received that message (it may be
+                    # neither in the database yet nor, if the task has since
+                    # completed, in the pool)
+                    if not rec:
+                        res.sim.probe('new_prereq_on_unflushed_output')
+                    rec = True
+                up = before.get(f'{key[0]}/{key[1]}')
+                if up is not None and up['flows'] & b['flows'] and (
+                        key[2] in up['out_msgs']):
+                    # recorded by the pooled upstream task (possibly not yet
+                    # written to the database)
+                    rec = True
+                    res.sim.probe('new_prereq_on_output_of_pooled_task')
                 if rec:
                     res.sim.probe('new_prereq_satisfied_from_db')
                 if bool(av) != rec:
